@@ -28,7 +28,8 @@ Inductive hkind :=
 | HCreate (k : Z)
 | HRebuild (k : Z) (live : bool)    (* live: the context existed and build.ctx != nil *)
 | HCancel (k : Z) (live : bool)
-| HDispose (k : Z) (live : bool).
+| HDispose (k : Z) (live : bool)
+| HAfterDispose (k : Z).            (* respondAfterDispose: a cancel/dispose that arrived while a dispose of k was pending *)
 
 Inductive hstate :=
 | HRun                   (* may answer / may send a callback request *)
@@ -115,13 +116,24 @@ Definition sexec (s : sst) (a : sact) : option (sst * option sev) :=
           Some (upd_s s (s_keep s + 1) (s_next s) (s_cbs s)
                       (mkH id (HRebuild k (ctx_live k (s_cs s))) HRun :: s_hs s) (s_cs s), Some (ECReq id))
       | CCancel k =>
-          Some (upd_s s (s_keep s + 1) (s_next s) (s_cbs s)
-                      (mkH id (HCancel k (ctx_live k (s_cs s))) HRun :: s_hs s) (s_cs s), Some (ECReq id))
+          (* ctx != nil: the goroutine calls ctx.Cancel(); ctx == nil with a pending
+             dispose (disposeDone != nil): respondAfterDispose; no entry: answered at once *)
+          let kind := match find_c k (s_cs s) with
+                      | None => HCancel k false
+                      | Some c => if c_live c then HCancel k true else HAfterDispose k
+                      end in
+          Some (upd_s s (s_keep s + 1) (s_next s) (s_cbs s) (mkH id kind HRun :: s_hs s) (s_cs s), Some (ECReq id))
       | CDispose k =>
-          (* `build.ctx = nil` happens here, synchronously *)
-          let live := ctx_live k (s_cs s) in
-          Some (upd_s s (s_keep s + 1) (s_next s) (s_cbs s) (mkH id (HDispose k live) HRun :: s_hs s)
-                      (if live then set_c k false (ctx_building k (s_cs s)) (s_cs s) else s_cs s), Some (ECReq id))
+          (* `build.ctx = nil` and `build.disposeDone = make(chan)` happen here, synchronously *)
+          match find_c k (s_cs s) with
+          | None =>
+              Some (upd_s s (s_keep s + 1) (s_next s) (s_cbs s) (mkH id (HDispose k false) HRun :: s_hs s) (s_cs s), Some (ECReq id))
+          | Some c =>
+              if c_live c
+              then Some (upd_s s (s_keep s + 1) (s_next s) (s_cbs s) (mkH id (HDispose k true) HRun :: s_hs s)
+                               (set_c k false (c_building c) (s_cs s)), Some (ECReq id))
+              else Some (upd_s s (s_keep s + 1) (s_next s) (s_cbs s) (mkH id (HAfterDispose k) HRun :: s_hs s) (s_cs s), Some (ECReq id))
+          end
       end
   | SRespond id =>
       match find_h id (s_hs s) with
@@ -148,6 +160,14 @@ Definition sexec (s : sst) (a : sact) : option (sst * option sev) :=
                  || (match find_c k (s_cs s) with Some _ => false | None => true end) then None
               else Some (upd_s s (s_keep s - 1 - 1) (s_next s) (s_cbs s) gone (remove_c k (s_cs s)), Some (ESResp id))
           | HDispose k false, HRun => Some (upd_s s (s_keep s - 1) (s_next s) (s_cbs s) gone (s_cs s), Some (ESResp id))
+          | HAfterDispose k, HRun =>
+              (* <-disposeDone: closed right after destroyActiveBuild removed the entry.
+                 (If the client re-creates the same key at once the model waits
+                 longer than the code; the model then has fewer behaviours.) *)
+              match find_c k (s_cs s) with
+              | Some _ => None
+              | None => Some (upd_s s (s_keep s - 1) (s_next s) (s_cbs s) gone (s_cs s), Some (ESResp id))
+              end
           | _, _ => None
           end
       end
@@ -222,10 +242,3 @@ Fixpoint srun (s : sst) (acts : list sact) : option (sst * list sev) :=
       end
   end.
 
-(* the full statement about Cancel and Dispose at the service level: the
-   response to a cancel/dispose request is sent only when no build of that
-   context is running *)
-Definition answers_only_after_build_end (s : sst) (a : sact) : Prop :=
-  forall id h k live s' oe, a = SRespond id -> find_h id (s_hs s) = Some h ->
-    (h_kind h = HCancel k live \/ h_kind h = HDispose k live) ->
-    sexec s a = Some (s', oe) -> ctx_building k (s_cs s) = false.
